@@ -4,6 +4,7 @@ package interp
 
 import (
 	"fmt"
+	"os"
 	"go/types"
 	"math/big"
 	"sort"
@@ -200,6 +201,13 @@ func (i *interpreter) decide(conds []*smt.Term, kind byte) int {
 		panic(pathAbort{"infeasible", "no feasible alternative"})
 	}
 	ch := feas[0]
+	if len(feas) > 1 && os.Getenv("GOSYM_DECLOG") != "" && i.curFr != nil {
+		w := i.curFr.where()
+		if k := strings.Index(w, "\n"); k > 0 {
+			w = w[:k]
+		}
+		fmt.Fprintf(os.Stderr, "fork(%c,%d) at %s\n", kind, len(feas), w)
+	}
 	for _, alt := range feas[1:] {
 		p := make([]Decision, len(i.trail), len(i.trail)+1)
 		copy(p, i.trail)
